@@ -18,7 +18,8 @@ for d in sorted(os.listdir(os.path.join(V, "seeded"))):
     nv = len(re.findall(r"^VIOLATION", out, re.M))
     tier = "quick"
     m = re.search(r"^(C\d+) (quick|thorough):", out, re.M)
-    if m: tier = m.group(2)
+    ran = prop
+    if m: tier, ran = m.group(2), m.group(1)
     meta = {
         "id": d,
         "property": prop,
@@ -33,7 +34,8 @@ for d in sorted(os.listdir(os.path.join(V, "seeded"))):
             "how": "tools/seedconfirm.sh in a fresh scratch worktree of /repo (git worktree add /tmp/seedconfirm-<id>), removed afterwards",
         },
         "check_result": {
-            "command": "VERIF_REPO=<scratch worktree with the patch applied> ./run %s %s" % (prop, tier),
+            "command": "VERIF_REPO=<scratch worktree with the patch applied> ./run %s %s" % (ran, tier),
+            "check_run": ran,
             "caught": nv > 0,
             "violations": nv,
             "signatures": sorted(set(viols))[:12],
